@@ -401,6 +401,9 @@ def d_row0_guarded(f, s, R, db):
     for r in rels:
         if r[0] == 'ne' and norm(r[2]) == ('k', 0) and common.is_call_on(r[1], '::rows', recv):
             return 'guarded: rows() != 0 dominates matrix()[0]'
+        # match x.rows() { 0 => .., _ => x[0] }
+        if r[0] == 'switch' and r[2] == ('notin', [0]) and common.is_call_on(r[1], '::rows', recv):
+            return 'guarded: the `_` arm of match rows() { 0 => .. } dominates matrix()[0]'
     return None
 
 
